@@ -467,6 +467,16 @@ fn gen_idx_assign(rng: &mut Rng, k: &Knobs, m: &Model, fault: bool) -> Option<Op
     // elements if nothing checks the lengths first)
     let n = if fault && n >= 2 && rng.chance(1, 2) { 1 + rng.usize(n - 1) } else { n };
     Expr::Lit(gen_vec_rand(rng, &ek, n))
+  } else if fk == 99 && literal_matrix_kind(&ek) && matches!(sub, Sub::Two(..)) && rng.chance(1, 4) {
+    // a matrix (or vector) source for a two-position form: one source element per addressed one
+    match &sub {
+      Sub::Two(i, j) => {
+        let nr = super::model::resolve(&Sub::One(i.clone()), r, 1, &m.store).map(|p| p.len()).unwrap_or(0);
+        let nc = super::model::resolve(&Sub::One(j.clone()), c, 1, &m.store).map(|p| p.len()).unwrap_or(0);
+        if nr >= 1 && nc >= 1 && nr * nc >= 2 { Expr::Lit(SV::Mat(ek.clone(), nr, nc, (0..nr * nc).map(|_| gen_element(rng, &ek)).collect())) } else { scalar_source(rng, m, &ek) }
+      }
+      _ => scalar_source(rng, m, &ek),
+    }
   } else {
     scalar_source(rng, m, &ek)
   };
